@@ -23,10 +23,12 @@ type C08ECase struct {
 	Abandoned  int  `json:"abandoned"`   // 1..3 enable calls queued behind the busy monitor and abandoned
 	FirstFails bool `json:"first_fails"` // the installed config does not verify: the first enable fails, the delay stays
 	After      int  `json:"after"`       // reports after the monitor is released
+	// AbandonFirst: the caller of the FIRST (parked) call gives up as well, after a virtual second
+	AbandonFirst bool `json:"abandon_first,omitempty"`
 }
 
 func genC08E(t *rapid.T) C08ECase {
-	return C08ECase{Abandoned: rapid.IntRange(1, 3).Draw(t, "abandoned"), FirstFails: rapid.IntRange(0, 3).Draw(t, "first_fails") == 0, After: rapid.IntRange(1, 3).Draw(t, "after")}
+	return C08ECase{Abandoned: rapid.IntRange(1, 3).Draw(t, "abandoned"), FirstFails: rapid.IntRange(0, 3).Draw(t, "first_fails") == 0, After: rapid.IntRange(1, 3).Draw(t, "after"), AbandonFirst: rapid.Bool().Draw(t, "abandon_first")}
 }
 
 func runC08E(c C08ECase) (verdict vrt.Verdict) {
@@ -82,7 +84,12 @@ func runC08E(c C08ECase) (verdict vrt.Verdict) {
 		uVerifyHook.Store(&hook)
 		var firstErr error
 		firstDone := make(chan struct{})
-		go func() { _, _, firstErr = d.EnableVerification(ctx); close(firstDone) }()
+		firstCtx, firstCancel := ctx, context.CancelFunc(func() {})
+		if c.AbandonFirst {
+			firstCtx, firstCancel = context.WithTimeout(ctx, time.Second)
+		}
+		defer firstCancel()
+		go func() { _, _, firstErr = d.EnableVerification(firstCtx); close(firstDone) }()
 		synctest.Wait()
 		select {
 		case <-parked:
@@ -101,6 +108,7 @@ func runC08E(c C08ECase) (verdict vrt.Verdict) {
 			}
 		}
 		uVerifyHook.Store(nil)
+		synctest.Wait() // every caller whose deadline has passed has returned before any answer exists
 		release()
 		synctest.Wait()
 		select {
@@ -109,7 +117,12 @@ func runC08E(c C08ECase) (verdict vrt.Verdict) {
 			fail("the first EnableVerification did not return after its Verify call finished")
 			return
 		}
-		if c.FirstFails != (firstErr != nil) || (c.FirstFails && !errors.Is(firstErr, ErrInvalid)) {
+		if c.AbandonFirst {
+			if firstErr == nil {
+				fail("the first EnableVerification returned nil although its caller's context ended while the monitor was still verifying")
+				return
+			}
+		} else if c.FirstFails != (firstErr != nil) || (c.FirstFails && !errors.Is(firstErr, ErrInvalid)) {
 			fail("the first EnableVerification returned %v (installed config valid=%v)", firstErr, !c.FirstFails)
 			return
 		}
@@ -129,24 +142,28 @@ func runC08E(c C08ECase) (verdict vrt.Verdict) {
 			}
 		}
 		lctx, lcancel := context.WithTimeout(ctx, time.Hour)
-		_, _, lerr := d.EnableVerification(lctx)
+		lcfg, ltok, lerr := d.EnableVerification(lctx)
 		lcancel()
 		if lerr != nil {
-			fail("a later EnableVerification (every installed config valid) returned %v", lerr)
+			fail("a later EnableVerification (the installed config is valid; %d earlier call(s) were abandoned, first abandoned=%v, first verdict failing=%v) returned %v: it must get its OWN answer", c.Abandoned, c.AbandonFirst, c.FirstFails, lerr)
+			return
+		}
+		if cur, ctok := d.ViewVersion(); lcfg != cur || ltok != ctok {
+			fail("a later EnableVerification returned (N=%d, serial %d), want the installed config (N=%d, serial %d): answers of abandoned calls must not be handed to later callers", lcfg.N, serialOf(ltok), cur.N, serialOf(ctok))
 		}
 	})
 	if msg != "" {
 		return vrt.KeyedViolationf("enable-abandoned", "%s", msg)
 	}
-	return vrt.OK(true, fmt.Sprintf("abandoned=%d", c.Abandoned), fmt.Sprintf("first_fails=%v", c.FirstFails))
+	return vrt.OK(true, fmt.Sprintf("abandoned=%d", c.Abandoned), fmt.Sprintf("first_fails=%v", c.FirstFails), fmt.Sprintf("abandon_first=%v", c.AbandonFirst))
 }
 
 func TestC08EnableAbandoned(t *testing.T) {
 	curT = t
 	vrt.Check(t, vrt.Prop[C08ECase]{
 		ID: "C08", Name: "enable-abandoned",
-		Rule: "delayed verification; a first EnableVerification parks the monitor inside Verify, 1..3 further EnableVerification calls queue up behind it and their callers give up after a virtual second, the monitor is released, then 1..3 blocking reports and one more enable; inside a synctest bubble; " +
-			"oracle: the abandoned calls return a failure at their deadline, the first call returns its verdict, and afterwards the monitor still serves every report and call (a monitor blocked on answering a caller that went away deadlocks the bubble); " +
+		Rule: "delayed verification; a first EnableVerification parks the monitor inside Verify (its own caller may give up too), 1..3 further EnableVerification calls queue up behind it and their callers give up after a virtual second, the monitor is released, then 1..3 blocking reports and one more enable; inside a synctest bubble; " +
+			"oracle: the abandoned calls return a failure at their deadline, the first call returns its verdict, and afterwards the monitor still serves every report and call, each later call getting its own answer (installed config and ViewVersion's token) (a monitor blocked on answering a caller that went away deadlocks the bubble); " +
 			"non-trivial = every case; distinct = distinct case JSON (12 of them)",
 		Assumptions: []string{"the control channel holds at most 3 queued requests (dials.go), hence at most 3 abandoned calls"},
 		Gen:         genC08E, Run: runC08E,
@@ -159,6 +176,18 @@ func TestC05EnableAbandoned(t *testing.T) {
 		ID: "C05", Name: "enable-abandoned",
 		Rule: "the histories of C08/enable-abandoned (EnableVerification callers that give up while the monitor is busy, then reports); " +
 			"oracle (C05's clause): after each later report the view holds that source's most recently reported value; " +
+			"non-trivial = every case; distinct = distinct case JSON",
+		Assumptions: []string{"see C08/enable-abandoned"},
+		Gen:         genC08E, Run: runC08E,
+	})
+}
+
+func TestC09EnableAbandoned(t *testing.T) {
+	curT = t
+	vrt.Check(t, vrt.Prop[C08ECase]{
+		ID: "C09", Name: "enable-abandoned",
+		Rule: "the histories of C08/enable-abandoned (EnableVerification callers - also the one whose Verify call is in progress - give up while the monitor is busy; then reports and a retry); " +
+			"oracle (C09's clauses): a failed or abandoned enable leaves the delay in force and can be retried; the retry verifies the installed config and returns that config and its serial, never the verdict of an earlier, abandoned call; " +
 			"non-trivial = every case; distinct = distinct case JSON",
 		Assumptions: []string{"see C08/enable-abandoned"},
 		Gen:         genC08E, Run: runC08E,
